@@ -1157,6 +1157,14 @@ static Token *preprocess2(Token *tok) {
 }
 
 void define_macro(char *name, char *buf) {
+  // -D'F(x)=x+1' defines a function-like macro, as '#define F(x) x+1'
+  // does.
+  if (strchr(name, '(')) {
+    Token *tok = tokenize(new_file("<built-in>", 1, format("%s %s", name, buf)));
+    read_macro_definition(&tok, tok);
+    return;
+  }
+
   Token *tok = tokenize(new_file("<built-in>", 1, buf));
   add_macro(name, true, tok);
 }
